@@ -939,48 +939,49 @@ def _map_func_over_core_dims(
     Must accept original (unpadded) args in order to get depth of overlap correct.
     """
 
+    from dask.array import Array as dask_Array  # type: ignore
     from dask.array import map_overlap as dask_map_overlap  # type: ignore
 
-    # Need to transpose the numpy axis arguments to leave core dims at end
-    # else they won't match up inside mapped_func after xr.apply_ufunc does its transposition
-    transposed_original_args = [
-        arg.transpose(..., *in_core_dims[i]) for i, arg in enumerate(original_args)
-    ]
-
-    boundary_width_per_numpy_axis = {
-        grid.axes[ax_name]._get_axis_dim_num(transposed_original_args[0]): width
-        for ax_name, width in boundary_width_real_axes.items()
+    # Width of the overlap along each core dim of each argument, in the order of that argument's core dims.
+    # Inside mapped_func (i.e. after xr.apply_ufunc has done its transposition) an argument's core dims are its
+    # trailing axes, whatever other dimensions it has, so the depth is counted from the end for each argument.
+    dim_to_axis = {
+        dim: ax_name for ax_name, ax in grid.axes.items() for dim in ax.coords.values()
     }
-
-    single_dim_chunktype = Tuple[int, ...]
-
-    def _dict_to_numbered_axes(
-        sizes: Mapping[str, single_dim_chunktype],
-    ) -> Tuple[single_dim_chunktype, ...]:
-        """This implicitly crystallises the order of the given mapping"""
-        return tuple(sizes.values())
-
-    # Our rechunking means dask.map_overlap needs to be explicitly told what chunks output should have
-    # But in this case output chunks are the same as input chunks
-    # (as we disallowed axis positions for which this is not the case)
-    original_chunksizes = [arg.variable.chunksizes for arg in transposed_original_args]
-    # TODO first argument only because map_overlap can't handle multiple return values (I think)
-    true_chunksizes = original_chunksizes[0]
-    # dask.map_overlap needs chunks in terms of axis number, not axis name (i.e. (chunks, ...), not {str: chunks})
-    true_chunksizes_per_numpy_axis = _dict_to_numbered_axes(true_chunksizes)
+    widths_per_arg = [
+        [boundary_width_real_axes.get(dim_to_axis.get(dim), (0, 0)) for dim in core_dims]
+        for core_dims in in_core_dims
+    ]
 
     # (we don't need a separate code path using bare map_blocks if boundary_widths are zero because map_overlap just
     # calls map_blocks automatically in that scenario)
     def mapped_func(*a, **kw):
-        return dask_map_overlap(
+        depth = [
+            {arr.ndim - len(widths) + i: tuple(width) for i, width in enumerate(widths)}
+            for arr, widths in zip(a, widths_per_arg)
+        ]
+        overlapped = dask_map_overlap(
             func,
             *a,
             **kw,
-            depth=boundary_width_per_numpy_axis,
+            depth=depth,
             boundary="none",
             trim=False,
             meta=np.array([], dtype=out_dtypes[0]),
-            chunks=true_chunksizes_per_numpy_axis,
+        )
+        # dask may have aligned or re-chunked the arguments, so only now do we know the blocks it really mapped over.
+        # It reports the chunks of the (padded) first argument, but func trims off what the padding / overlap added
+        # (we disallowed axis positions for which this is not the case): the first block along each core dim is
+        # shorter by the lower width and the last one by the upper width.
+        true_chunks = list(overlapped.chunks)
+        for i, (lower, upper) in enumerate(widths_per_arg[0]):
+            axis = overlapped.ndim - len(widths_per_arg[0]) + i
+            blocks = list(true_chunks[axis])
+            blocks[0] -= lower
+            blocks[-1] -= upper
+            true_chunks[axis] = tuple(blocks)
+        return dask_Array(
+            overlapped.dask, overlapped.name, tuple(true_chunks), meta=overlapped
         )
 
     return mapped_func
